@@ -12,6 +12,7 @@ import OFV.Proofs.C04Sum
 import OFV.Proofs.C04OneBody
 import OFV.Proofs.C04TwoBodyAll
 import OFV.Proofs.C04Iop2
+import OFV.Proofs.C04Dch
 
 namespace OFV.C04
 open OFV OFV.Spec OFV.Model OFV.Model.C04 OFV.Sem
@@ -181,6 +182,18 @@ theorem jw_interaction_op_sound (tol : Rat) (n : Nat) (const : GQ) (one two : Li
       = GV.coeff (applyOp .fermion (Spec.C04.interactionOp n const one two) [m]) [x] :=
   jwInteractionOp_sound tol n const one two h1 h2 hok m x
 
+/-- **`jordan_wigner(DiagonalCoulombHamiltonian)` is sound**: for every `n`, Hermitian `T` and symmetric `V`
+(as stored in the object) the strings written out by `_jordan_wigner_diagonal_coulomb_hamiltonian` act like
+`const + Σ_{p,q} T[p,q] a†_p a_q + Σ_{p,q} V[p,q] n_p n_q` (all ordered pairs, the docstring formula) on
+every basis state, on every exact run. -/
+theorem jw_dch_sound (tol : Rat) (n : Nat) (const : GQ) (one two : List GQ)
+    (h1 : ∀ p q, p < n → q < n → get1 n one q p = (get1 n one p q).conj)
+    (h2 : ∀ p q, p < n → q < n → get1 n two q p = get1 n two p q)
+    (hok : jwDCHOk tol n const one two = true) (m x : Nat) :
+    GV.coeff (applyOp .qubit (jwDCH tol n const one two) [m]) [x]
+      = GV.coeff (applyOp .fermion (Spec.C04.dchOp n const one two) [m]) [x] :=
+  jwDCH_sound tol n const one two h1 h2 hok m x
+
 /-! ### non-vacuity -/
 
 /-- the threshold the driver runs with satisfies the hypothesis of the theorems -/
@@ -232,5 +245,11 @@ example :
     have : s = 0 ∨ s = 1 := by omega
     rcases ‹p = 0 ∨ _› with rfl | rfl <;> rcases ‹q = 0 ∨ _› with rfl | rfl <;>
       rcases ‹r = 0 ∨ _› with rfl | rfl <;> rcases ‹s = 0 ∨ _› with rfl | rfl <;> decide +kernel
+
+/-- exact-regime hypothesis of `jw_dch_sound` on a concrete 3-orbital Hamiltonian (complex hopping) -/
+example : jwDCHOk Generated.eqTolerance 3 ⟨mkRat 3 4, 0⟩
+    [⟨1, 0⟩, ⟨1, 1⟩, 0, ⟨1, -1⟩, ⟨-2, 0⟩, ⟨0, mkRat 1 2⟩, 0, ⟨0, -(mkRat 1 2)⟩, ⟨3, 0⟩]
+    [0, ⟨mkRat 1 2, 0⟩, ⟨-1, 0⟩, ⟨mkRat 1 2, 0⟩, 0, 0, ⟨-1, 0⟩, 0, 0] = true := by
+  decide +kernel
 
 end OFV.C04
